@@ -354,6 +354,14 @@ func genC18(r *hx.R, tier string, scratch string) (*hx.Suite, error) {
 	ext.Devices[0].ContainerEdits.Hooks[0].Timeout = intp(math.MaxUint32)
 	ext.Devices[0].ContainerEdits.AdditionalGIDs = []uint32{0, math.MaxUint32}
 	add(ext, "extremes", true)
+	// strings the YAML encoder cannot write readably as block scalars (they span several lines and begin with white space):
+	// the library must still write a file its readers load (repaired defect D29)
+	for _, str := range []string{"  lead=a\nb", "X=\nx", "T=\ta\nb\n", "N= \n"} {
+		sp := fullSpec17()
+		sp.Devices[0].ContainerEdits.Env = append(sp.Devices[0].ContainerEdits.Env, str)
+		sp.Devices[0].ContainerEdits.Hooks[0].Args = append(sp.Devices[0].ContainerEdits.Hooks[0].Args, str[strings.Index(str, "=")+1:])
+		add(sp, "multi-line-strings-with-leading-white-space", true)
+	}
 	minimal := &specs.Spec{Version: specs.CurrentVersion, Kind: "vendor.com/class",
 		Devices: []specs.Device{{Name: "d", ContainerEdits: specs.ContainerEdits{Env: []string{"A=b"}}}}}
 	add(minimal, "minimal", false)
